@@ -762,6 +762,156 @@ impl Stream for TransportService {
     }
 }
 
+/// Verification hooks (Kademlia glue harness): a [`TransportService`] that is fed by the external
+/// harness the way transports and connections feed it. Adds code only.
+#[cfg(feature = "verif")]
+pub mod verif {
+    use super::*;
+    use crate::{
+        codec::ProtocolCodec,
+        protocol::{connection::Permit, Direction, ProtocolCommand},
+        substream::{Substream, VerifIo},
+        transport::manager::TransportManager,
+    };
+
+    /// The sending half of the service's event channel.
+    pub struct VerifServiceInput {
+        tx: Sender<InnerTransportEvent>,
+        protocol: ProtocolName,
+        codec: ProtocolCodec,
+    }
+
+    /// The connection side of a [`ConnectionHandle`] given to the service.
+    pub struct VerifConnection {
+        connection_id: ConnectionId,
+        tx: Sender<ProtocolCommand>,
+        rx: Option<Receiver<ProtocolCommand>>,
+    }
+
+    impl VerifConnection {
+        /// Substream ids of the `OpenSubstream` commands received since the last call.
+        pub fn take_open_requests(&mut self) -> Vec<usize> {
+            let mut out = Vec::new();
+            if let Some(rx) = self.rx.as_mut() {
+                while let Ok(command) = rx.try_recv() {
+                    if let ProtocolCommand::OpenSubstream { substream_id, .. } = command {
+                        out.push(substream_id.verif_as_usize());
+                    }
+                }
+            }
+            out
+        }
+
+        /// Drop the receiving half: the connection task is gone, `open_substream` fails.
+        pub fn kill(&mut self) {
+            self.rx = None;
+        }
+    }
+
+    impl TransportService {
+        /// Create a service attached to the handle of `manager`.
+        pub fn verif_new(
+            manager: &TransportManager,
+            local_peer_id: PeerId,
+            protocol: ProtocolName,
+            codec: ProtocolCodec,
+            keep_alive_timeout: Duration,
+        ) -> (Self, VerifServiceInput) {
+            let (service, tx) = Self::new(
+                local_peer_id,
+                protocol.clone(),
+                Vec::new(),
+                Arc::new(AtomicUsize::new(0usize)),
+                manager.transport_manager_handle(),
+                keep_alive_timeout,
+                SubstreamKeepAlive::Yes,
+            );
+            (service, VerifServiceInput { tx, protocol, codec })
+        }
+    }
+
+    impl VerifServiceInput {
+        pub fn connection_established(
+            &self,
+            peer: PeerId,
+            connection_id: usize,
+            address: Multiaddr,
+            capacity: usize,
+        ) -> Option<VerifConnection> {
+            let connection_id = ConnectionId::from(connection_id);
+            let (tx, rx) = channel(capacity);
+            self.tx
+                .try_send(InnerTransportEvent::ConnectionEstablished {
+                    peer,
+                    connection: connection_id,
+                    endpoint: Endpoint::dialer(address, connection_id),
+                    sender: ConnectionHandle::new(connection_id, tx.clone()),
+                })
+                .ok()?;
+            Some(VerifConnection { connection_id, tx, rx: Some(rx) })
+        }
+
+        /// A connection object that the service was never told about (for events that arrive
+        /// for a peer the service has no connection to).
+        pub fn dummy_connection(&self, connection_id: usize) -> VerifConnection {
+            let (tx, rx) = channel(1);
+            VerifConnection {
+                connection_id: ConnectionId::from(connection_id),
+                tx,
+                rx: Some(rx),
+            }
+        }
+
+        pub fn connection_closed(&self, peer: PeerId, connection: &VerifConnection) -> bool {
+            self.tx
+                .try_send(InnerTransportEvent::ConnectionClosed {
+                    peer,
+                    connection: connection.connection_id,
+                })
+                .is_ok()
+        }
+
+        pub fn dial_failure(&self, peer: PeerId, addresses: Vec<Multiaddr>) -> bool {
+            self.tx.try_send(InnerTransportEvent::DialFailure { peer, addresses }).is_ok()
+        }
+
+        /// `outbound`: `Some(substream id)` for a substream the service asked for.
+        pub fn substream_opened(
+            &self,
+            peer: PeerId,
+            outbound: Option<usize>,
+            carrier_id: usize,
+            io: Box<dyn VerifIo>,
+            connection: &VerifConnection,
+        ) -> bool {
+            let substream_id = SubstreamId::from(outbound.unwrap_or(carrier_id));
+            self.tx
+                .try_send(InnerTransportEvent::SubstreamOpened {
+                    peer,
+                    protocol: self.protocol.clone(),
+                    fallback: None,
+                    direction: match outbound {
+                        Some(id) => Direction::Outbound(SubstreamId::from(id)),
+                        None => Direction::Inbound,
+                    },
+                    connection_id: connection.connection_id,
+                    substream: Substream::verif_new(peer, substream_id, io, self.codec.clone()),
+                    opening_permit: Permit::new(connection.tx.clone()),
+                })
+                .is_ok()
+        }
+
+        pub fn substream_open_failure(&self, substream_id: usize) -> bool {
+            self.tx
+                .try_send(InnerTransportEvent::SubstreamOpenFailure {
+                    substream: SubstreamId::from(substream_id),
+                    error: SubstreamError::ConnectionClosed,
+                })
+                .is_ok()
+        }
+    }
+}
+
 #[cfg(test)]
 mod tests {
     use super::*;
